@@ -143,23 +143,7 @@ def run_case(ck, desc):
     ck.count("contract_evaluations.simulate")
     m_i, m_f = sim.frac_face_values(desc, res, fluid, time, sched)
     out = judge(ck, desc, desc["cls"], res, fluid, ev["time"], ev["pp"], sched, m_i, m_f)
-    # the simulated values are still there after the object has been ASKED things: recovery queries
-    # and the interpolator only read the field
-    with np.errstate(all="ignore"), warnings.catch_warnings():
-        warnings.simplefilter("ignore")
-        try:
-            res.recovery_factor()
-            if fluid is not None and "density" in fluid.pvt_props:
-                res.recovery_factor(density=True)
-            res.recovery_factor()
-            res.recovery_factor_interpolator()
-        except Exception as e:  # noqa: BLE001
-            ck.count(f"recovery_query_raised.{type(e).__name__}")
-    live = np.asarray(res.pseudopressure)
-    if live.shape != ev["pp"].shape or not np.array_equal(live, ev["pp"], equal_nan=True):
-        bad = np.argwhere(live != ev["pp"]) if live.shape == ev["pp"].shape else []
-        ck.violation("simulated-values-unchanged-by-recovery-queries", {"n_changed": int(len(bad)), "first": bad[:3].tolist() if len(bad) else None}, desc)
-    ck.count("fields_reread_after_recovery_queries")
+    sim.reread_after_use(ck, desc, res, fluid, ev["pp"], ev["time"], caller_time=time, plots=(int(desc.get("grid", {}).get("seed", 0)) % 3 == 0))
     return out
 
 
